@@ -142,7 +142,36 @@ func checkCompactionRanges(p *Prog, r *Roles, res *Result, rule string) {
 					}
 					enc, ok := resolve(st.Val).(*ssa.Call)
 					if !ok || !r.is(enc, r.EncObj) {
-						continue
+						// the border may be a result of a helper of the package that builds it (one return): judge the
+						// encoder call the helper returns, in the helper's frame
+						enc = nil
+						var hc *ssa.Call
+						ridx := 0
+						switch x := resolve(st.Val).(type) {
+						case *ssa.Extract:
+							hc, _ = x.Tuple.(*ssa.Call)
+							ridx = x.Index
+						case *ssa.Call:
+							hc = x
+						}
+						if hc != nil {
+							if h := hc.Common().StaticCallee(); h != nil && h.Blocks != nil && h.Pkg == bp {
+								var rets []*ssa.Return
+								for _, hb := range h.Blocks {
+									if ret, ok := hb.Instrs[len(hb.Instrs)-1].(*ssa.Return); ok && hb.Comment != "recover" {
+										rets = append(rets, ret)
+									}
+								}
+								if len(rets) == 1 && ridx < len(rets[0].Results) {
+									if e2, ok := resolve(rets[0].Results[ridx]).(*ssa.Call); ok && r.is(e2, r.EncObj) {
+										enc = e2
+									}
+								}
+							}
+						}
+						if enc == nil {
+							continue
+						}
 					}
 					k, up, ok := prefixOf(argForSigParam(enc, 0))
 					if !ok {
